@@ -122,6 +122,25 @@ def transposed(w):
     return w != 'N' and len(w) % 2 == 1
 
 
+LAYOUTS = ['F', 'Tview', 'strided', 'negstride']
+
+
+def relayout(x, how):
+    """an array with the same shape, dtype and values as `x` but another memory layout"""
+    x = np.asarray(x)
+    if how == 'F':
+        return np.asfortranarray(x)
+    if how == 'Tview':                                   # transposed view of a C-ordered array (F-contiguous, not owning its data)
+        return np.ascontiguousarray(x.T).T
+    if how == 'strided':                                 # every second entry of a larger buffer along every axis
+        big = np.zeros(tuple(2 * n for n in x.shape), dtype=x.dtype)
+        sl = tuple(slice(None, None, 2) for _ in x.shape)
+        big[sl] = x
+        return big[sl]
+    sl = tuple(slice(None, None, -1) for _ in x.shape)   # negative strides along every axis
+    return np.ascontiguousarray(x[sl])[sl]
+
+
 def kron_all(mats):
     return reduce(np.kron, mats)
 
@@ -154,6 +173,7 @@ def run(ctx):
     req, exp, meta = [], [], []
     oracle_bad = []
     dtype_bad = []
+    layout_bad = []
 
     def add(r, thunk, m, dense=None, x=None):
         """thunk calls the implementation; dense/x: the explicit matrix and argument for the model-free oracle"""
@@ -170,9 +190,34 @@ def run(ctx):
             want = dense @ x
             if y is None or y.shape != want.shape or not np.array_equal(y, want):
                 oracle_bad.append((m, r, e, fmt_tensor(want)))
-            elif rng.integers(0, 3) == 0:
-                dtype_probe(r, thunk, m, dense, x)
+            else:
+                if rng.integers(0, 3) == 0:
+                    dtype_probe(r, thunk, m, dense, x)
+                if rng.integers(0, 2) == 0:
+                    layout_probe(r, thunk, m, dense, x)
         return e
+
+    def layout_probe(r, thunk, m, dense, x):
+        """the same call with the argument held in another memory layout (Fortran order, transposed view, strided, negative strides)"""
+        import inspect
+        names = [nm for nm in ('x', 'x2', 'x1') if nm in inspect.signature(thunk).parameters]
+        if not names:
+            return
+        how = LAYOUTS[int(rng.integers(0, len(LAYOUTS)))]
+        xl = relayout(x, how)
+        assert xl.shape == x.shape and np.array_equal(xl, x)
+        want = dense @ x
+        shp = '(N,)' if x.ndim == 1 else '(N,1)' if x.shape[1] == 1 else '(N,m)'
+        ctx.count('layout probe=%s %s' % (how, shp)); ctx.case((r, 'layout', how), nontrivial=m.get('nontrivial', True))
+        try:
+            y = np.asarray(thunk(**{names[0]: xl}))
+            ok = y.shape == want.shape and np.array_equal(y, want) and np.array_equal(xl, x)
+            got = fmt_tensor(y)
+        except Exception as ex:
+            ok = False
+            got = errtok(ex) + ': ' + str(ex)[:120]
+        if not ok:
+            layout_bad.append((m, r, how, shp, got, fmt_tensor(want)))
 
     DTYPES = [np.int64, np.int32, np.bool_, np.float32]
 
@@ -253,6 +298,18 @@ def run(ctx):
                         okc = False; gotc = errtok(ex) + ': ' + str(ex)[:120]
                     if not okc:
                         dtype_bad.append(({'op': 'tprod', 'kinds': ks}, r, np.dtype(dt).name, gotc, fmt_tensor(wantc), Ac.tolist()))
+                if rng.integers(0, 2) == 0 and Y.shape == rows + trail:
+                    how = LAYOUTS[int(rng.integers(0, len(LAYOUTS)))]
+                    Al = relayout(A, how)
+                    ctx.count('layout probe=%s tensor' % how)
+                    try:
+                        Yl = np.asarray(tensor.apply_tprod(ops, Al))
+                        okl = Yl.shape == Y.shape and np.array_equal(Yl, (dense @ x).reshape(rows + trail)) and np.array_equal(Al, A)
+                        gotl = fmt_tensor(Yl)
+                    except Exception as ex:
+                        okl = False; gotl = errtok(ex) + ': ' + str(ex)[:120]
+                    if not okl:
+                        layout_bad.append(({'op': 'tprod', 'kinds': ks}, r, how, 'tensor', gotl, fmt_tensor((dense @ x).reshape(rows + trail))))
             except Exception as ex:
                 oracle_bad.append(({'op': 'tprod', 'kinds': ks}, r, errtok(ex), 'no exception expected'))
         else:
@@ -492,6 +549,17 @@ def run(ctx):
     ctx.obligation('argument dtypes int64/int32/bool/float32: %d probes equal the float64 dense definition' % sum(
         v for k, v in ctx.counters.items() if k.startswith('dtype probe=')), not dtype_bad, '%d failures' % len(dtype_bad))
 
+    seen_lay = set()
+    for (m, r, how, shp, got, want) in layout_bad:
+        if m['op'] in seen_lay:
+            continue
+        seen_lay.add(m['op'])
+        ctx.violation('layout:' + m['op'], '%s applied to a %s argument in %s memory layout differs from the result for the C-ordered argument / the dense definition' % (
+            m['op'], shp, {'F': 'Fortran-contiguous', 'Tview': 'transposed-view (F-contiguous)', 'strided': 'strided', 'negstride': 'negative-stride'}[how]),
+            {'request_C_order': r[:2500], 'argument_layout': how, 'argument_shape_kind': shp, 'implementation': got[:1500], 'dense_definition': want[:1500], 'meta': m}, True)
+    ctx.obligation('argument memory layouts F/transposed view/strided/negative strides: %d probes equal the dense definition' % sum(
+        v for k, v in ctx.counters.items() if k.startswith('layout probe=')), not layout_bad, '%d failures' % len(layout_bad))
+
     adjoints(ctx, operators, rng)
     history_stream(ctx, operators, solvers, rng)
     solver_streams(ctx, operators, solvers, rng)
@@ -687,10 +755,10 @@ def spd_int(rng, n):
     return G @ G.T + n * np.eye(n)
 
 
-def exact_inv_norms(B):
-    """(||B||_inf, ||B^-1||_inf) with the inverse computed exactly over Fraction"""
+def exact_inverse(B):
+    """exact inverse (lists of Fractions) of the matrix of doubles B by Gauss-Jordan elimination, or None if singular"""
     n = B.shape[0]
-    a = [[Fraction(int(v)) for v in row] + [Fraction(int(i == j)) for j in range(n)] for i, row in enumerate(B.tolist())]
+    a = [[Fraction(float(v)) for v in row] + [Fraction(int(i == j)) for j in range(n)] for i, row in enumerate(np.asarray(B, dtype=float).tolist())]
     for c in range(n):
         p = next((r for r in range(c, n) if a[r][c] != 0), None)
         if p is None:
@@ -702,7 +770,15 @@ def exact_inv_norms(B):
             if r != c and a[r][c] != 0:
                 f = a[r][c]
                 a[r] = [v - f * w for v, w in zip(a[r], a[c])]
-    ninv = max(sum(abs(v) for v in row[n:]) for row in a)
+    return [row[n:] for row in a]
+
+
+def exact_inv_norms(B):
+    """(||B||_inf, ||B^-1||_inf) with the inverse computed exactly over Fraction"""
+    inv = exact_inverse(B)
+    if inv is None:
+        return None
+    ninv = max(sum(abs(v) for v in row) for row in inv)
     return float(np.abs(B).sum(1).max()), float(ninv)
 
 
@@ -753,6 +829,20 @@ def solver_streams(ctx, operators, solvers, rng):
                 nres_bad += 1
                 ctx.violation('dtype:solver', '%s applied to a %s right-hand side: residual %g exceeds the bound %g' % (what, np.dtype(dt).name, r2, b2),
                               dict(replay, argument_dtype=np.dtype(dt).name, argument=xc.tolist(), y=yc.tolist() if hasattr(yc, 'tolist') else yc), True)
+        if res <= bound and rng.integers(0, 2) == 0:
+            # the same right-hand side in another memory layout; and the solver's own output fed back through the operator's matrix
+            how = LAYOUTS[int(rng.integers(0, len(LAYOUTS)))]
+            xl = relayout(x, how)
+            ctx.count('solver layout probe=' + how)
+            try:
+                yl = np.asarray(op.dot(xl))
+                r3 = np.abs(Kd @ yl - x).max() if yl.shape == x.shape else np.inf
+            except Exception as ex:
+                r3 = np.inf; yl = errtok(ex)
+            if not (r3 <= bound and np.array_equal(xl, x)):
+                nres_bad += 1
+                ctx.violation('layout:solver', '%s applied to a right-hand side in %s memory layout: residual %g exceeds the bound %g' % (what, how, r3, bound),
+                              dict(replay, argument_layout=how, y=yl.tolist() if hasattr(yl, 'tolist') else yl), True)
         return y
 
     for _ in range(250 if quick else 2500):
@@ -802,6 +892,14 @@ def solver_streams(ctx, operators, solvers, rng):
             else:
                 kop = operators.make_kronecker_solver(*mats)
                 y = check_solver(kop, K, x, 'make_kronecker_solver', replay, cond)
+                if y is not None:
+                    # chain: the solver's output (an F-ordered array from the column-major sweeps) fed to the dense Kronecker operator
+                    z = np.asarray(operators.KroneckerOperator(*[np.array(B) for B in Bs]).dot(y))
+                    bz = 64.0 * N * eps * cond * max(1.0, float(np.abs(x).max())) * float(np.abs(K).sum(1).max())
+                    if z.shape != x.shape or not np.abs(z - x).max() <= bz:
+                        nres_bad += 1
+                        ctx.violation('chain:kron-of-solver-output', 'KroneckerOperator(*Bs).dot(make_kronecker_solver(*Bs).dot(x)) differs from x by %g (bound %g); the solver output is %s-contiguous' % (
+                            np.abs(z - x).max() if z.shape == x.shape else np.inf, bz, 'F' if (np.asarray(y).flags.f_contiguous and not np.asarray(y).flags.c_contiguous) else 'C'), replay, True)
                 if rng.integers(0, 2):
                     kop2 = operators.make_kronecker_solver(*mats)      # rebuilt from the same arrays
                     check_solver(kop2, K, x, 'make_kronecker_solver [rebuilt from the same arrays]', replay, cond)
@@ -820,6 +918,67 @@ def solver_streams(ctx, operators, solvers, rng):
         t = 64.0 * N * eps * cond * max(1.0, float(np.abs(x).max())) * float(np.abs(np.linalg.inv(K)).sum(1).max())
         req.append('ksolve %s %s' % (fmt_ops(['d'] * n, Bs), fmt_tensor(x)))
         impl.append(y); tol.append(t); meta.append({'op': 'ksolve', 'kinds': ks, 'layouts': lay})
+    # make_solver(symmetric=True / default) on well-conditioned symmetric INDEFINITE matrices with tiny or zero diagonal entries
+    # (regularised saddle points, tridiagonal with a tiny pivot), sparse formats and dense; reference: exact rational solve
+    for _ in range(70 if quick else 700):
+        typ = str(rng.choice(['saddle', 'saddle', 'tridiag', 'indef']))
+        tiny = float(rng.choice([0.0, 1e-17, 1e-14, 1e-12, 1e-10]))
+        if typ == 'saddle':
+            n = int(rng.integers(2, 5)); mm = int(rng.integers(1, 3))
+            A = spd_int(rng, n); C = rint(rng, (mm, n))
+            K = np.block([[A, C.T], [C, -tiny * np.eye(mm)]])
+        elif typ == 'tridiag':
+            n = int(rng.integers(3, 7))
+            K = np.diag(rng.integers(1, 4, size=n).astype(float)) + np.diag(np.ones(n - 1), 1) + np.diag(np.ones(n - 1), -1)
+            j = 0 if rng.integers(0, 2) else int(rng.integers(0, n))
+            K[j, j] = tiny
+        else:
+            n = int(rng.integers(2, 6))
+            G = rint(rng, (n, n)); K = G + G.T
+            for j in range(n):
+                if rng.integers(0, 3) == 0:
+                    K[j, j] = tiny
+        inv = exact_inverse(K)
+        if inv is None:
+            continue
+        N = K.shape[0]
+        nK = float(np.abs(K).sum(1).max()); nI = float(max(sum(abs(v) for v in row) for row in inv))
+        cond = nK * nI
+        if cond > 1e5:
+            continue          # well-conditioned instances only
+        eig = np.linalg.eigvalsh(K)
+        definite = bool(eig.min() > 0)
+        F = rint(rng, (N, 3))
+        Xref = np.array([[float(sum(inv[i][k] * Fraction(float(F[k, c])) for k in range(N))) for c in range(3)] for i in range(N)])
+        bound = 256.0 * N * eps * cond * max(1.0, float(np.abs(Xref).max()))
+        for fmt in ('csr', 'csc', 'coo', 'dense'):
+            for kw in ({}, {'symmetric': True}):
+                M_ = np.array(K) if fmt == 'dense' else sp.coo_matrix(K).asformat(fmt)
+                if fmt != 'dense' and tiny == 0.0:
+                    M_ = sp.coo_matrix(K).asformat(fmt)      # structural zeros on the diagonal are simply absent
+                key = None
+                replay = {'K': K.tolist(), 'format': fmt, 'kwargs': kw, 'type': typ, 'tiny_diagonal': tiny, 'cond_inf': cond, 'definite': definite}
+                ctx.case(('symsolve', typ, fmt, tuple(kw), K.tobytes(), F.tobytes()), nontrivial=True)
+                ctx.count('stream=make_solver symmetric-indefinite'); ctx.count('symsolve %s %s' % (fmt, 'symmetric=True' if kw else 'default'))
+                try:
+                    S = operators.make_solver(M_, **kw)
+                    worst = 0.0
+                    for f, ref in ((F[:, 0], Xref[:, 0]), (F[:, :1], Xref[:, :1]), (F, Xref)):
+                        y = np.asarray(S.dot(f))
+                        e = np.abs(y - ref).max() if y.shape == ref.shape and np.all(np.isfinite(y)) else np.inf
+                        worst = max(worst, e)
+                    if not worst <= bound:
+                        key = 'make-solver-dense-symmetric-indefinite' if (fmt == 'dense' and kw and not definite) else 'symsolve-wrong'
+                        if key not in ctx.known_keys():
+                            nres_bad += 1
+                        ctx.violation(key, 'make_solver(%s matrix%s) on a well-conditioned symmetric %s matrix (cond_inf %.3g): error %g w.r.t. the exact rational solution exceeds the bound %g' % (
+                            fmt, ', symmetric=True' if kw else '', 'positive definite' if definite else 'indefinite', cond, worst, bound), dict(replay, rhs=F.tolist()), True)
+                except Exception as ex:
+                    key = 'make-solver-dense-symmetric-indefinite' if (fmt == 'dense' and kw and not definite) else 'symsolve-raise'
+                    if key not in ctx.known_keys():
+                        nres_bad += 1
+                    ctx.violation(key, 'make_solver(%s matrix%s) on a well-conditioned symmetric %s matrix (cond_inf %.3g) raised %s: %s' % (
+                        fmt, ', symmetric=True' if kw else '', 'positive definite' if definite else 'indefinite', cond, type(ex).__name__, str(ex)[:100]), replay, True)
     # fastdiag_solver
     from pyiga import bspline, assemble
     import scipy.linalg
